@@ -98,9 +98,11 @@ def _mapping(ref_fn, cur_fn) -> dict:
                     votes[r][c] += 1
     out = {}
     used = set()
-    for r, cs in votes.items():
-        if len(cs) == 1:
-            c = next(iter(cs))
+    for r, cs in sorted(votes.items(), key=lambda kv: -max(kv[1].values())):
+        best = max(cs.values())
+        winners = [c for c, k in cs.items() if k == best]
+        if len(winners) == 1:  # a strict majority of the uniquely matching statements agrees on the renaming
+            c = winners[0]
             if c not in used and r not in locals_:
                 out[r] = c
                 used.add(c)
